@@ -284,6 +284,62 @@ package protocol
 //@   modifies *
 //@   assert @C17 before append: sameSlice(arg1, kv.key) || sameSlice(arg1, kv.value)
 
+// C17 (cookie serialiser): an attribute is written as "; " name "=" value, byte for byte.
+//@ func appendCookiePart(dst, key, value) r
+//@   props C17
+//@   alias dst
+//@   modifies spare(dst)
+//@   allocates
+//@   ensures extends(r, dst) && spareOnly(dst)
+//@   top-ensures len(r) == len(dst) + len(key) + len(value) + 3 && r[len(dst)] == ';' && r[len(dst) + 1] == ' ' && r[len(dst) + 2 + len(key)] == '='
+//@   top-ensures !mayAlias(key, dst) ==> forall(k, 0, len(key), r[k + len(dst) + 2] == key[k])
+//@   top-ensures !mayAlias(value, dst) ==> forall(k, 0, len(value), r[k + len(dst) + len(key) + 3] == value[k])
+
+// Cookie.AppendBytes (typestate; ck*: the buffer built so far): name '=' value come first (the name part only for
+// a non-empty name), every later piece is appended to the result of the previous one, and each attribute is
+// written under its own name with the cookie's own field as the value: max-age with c.maxAge, expires with the
+// formatted c.expire, domain with c.domain, path with c.path, SameSite with Lax/Strict/None as c.sameSite says.
+//@ ghost var ckStep int
+//@ ghost var ckArr int
+//@ ghost var ckOff int
+//@ ghost var ckLen int
+//@ macro ckIs(s) = arr(s) == ckArr && off(s) == ckOff && len(s) == ckLen
+//@ macro isStr3(s, a, b, c) = len(s) == 3 && s[0] == a && s[1] == b && s[2] == c
+//@ func Cookie.AppendBytes(c, dst) r
+//@   props C17
+//@   abstract
+//@   noinline
+//@   modifies ckStep, ckArr, ckOff, ckLen
+//@   ghostset-at-entry ckStep = 0
+//@   ghostset-at-entry ckArr = arr(dst)
+//@   ghostset-at-entry ckOff = off(dst)
+//@   ghostset-at-entry ckLen = len(dst)
+//@   assert before append: ckIs(arg0)
+//@   assert before appendCookiePart: ckIs(arg0)
+//@   assert before AppendUint: ckIs(arg0) && arg1 == c.maxAge && c.maxAge > 0
+//@   assert before append#0: sameSlice(arg1, c.key) && len(arg1) > 0
+//@   assert before append#1: len(arg1) == 1 && arg1[0] == '='
+//@   assert before append#2: sameSlice(arg1, c.value) && (ckStep == 0 || ckStep == 2)
+//@   assert before append#4: len(arg1) == 7 && arg1[0] == 'm' && arg1[3] == '-' && arg1[6] == 'e'
+//@   assert before append#5: len(arg1) == 1 && arg1[0] == '='
+//@   assert before appendCookiePart#0: len(arg1) == 7 && arg1[0] == 'e' && arg1[1] == 'x' && arg1[6] == 's' && sameSlice(arg2, c.bufKV.value)
+//@   assert before appendCookiePart#1: len(arg1) == 6 && arg1[0] == 'd' && arg1[5] == 'n' && sameSlice(arg2, c.domain) && len(arg2) > 0
+//@   assert before appendCookiePart#2: len(arg1) == 4 && arg1[0] == 'p' && arg1[3] == 'h' && sameSlice(arg2, c.path) && len(arg2) > 0
+//@   assert before appendCookiePart#3: len(arg1) == 8 && arg1[0] == 'S' && arg1[4] == 'S' && isStr3(arg2, 'L', 'a', 'x') && c.sameSite == 2
+//@   assert before appendCookiePart#4: len(arg1) == 8 && arg1[0] == 'S' && arg1[4] == 'S' && len(arg2) == 6 && arg2[0] == 'S' && arg2[5] == 't' && c.sameSite == 3
+//@   assert before appendCookiePart#5: len(arg1) == 8 && arg1[0] == 'S' && arg1[4] == 'S' && len(arg2) == 4 && arg2[0] == 'N' && arg2[3] == 'e' && c.sameSite == 4
+//@   ghostset after append: ckStep = ckStep + 1
+//@   ghostset after append: ckArr = arr(result)
+//@   ghostset after append: ckOff = off(result)
+//@   ghostset after append: ckLen = len(result)
+//@   ghostset after appendCookiePart: ckArr = arr(result)
+//@   ghostset after appendCookiePart: ckOff = off(result)
+//@   ghostset after appendCookiePart: ckLen = len(result)
+//@   ghostset after AppendUint: ckArr = arr(result)
+//@   ghostset after AppendUint: ckOff = off(result)
+//@   ghostset after AppendUint: ckLen = len(result)
+//@   top-ensures ckIs(r) && ckStep >= 1
+
 // ---- C05: header serialisation cannot be used to inject lines ----
 
 //@ func newlineToSpace(val) r
